@@ -115,12 +115,70 @@ def round_trip(ctx, i, big):
     srv.kill()
 
 
+def resave_histories(ctx):
+    """SAVE — changes of ONE kind — SAVE — restart: the second save must store what the dataset is then, whichever way it was
+    changed since the first one (directly, by a blocking pop answered at once, by a pop made for a waiter, by a script that ends
+    normally / in an error after its writes, inside EXEC, by a deadline, by commands that delete, by nothing at all)."""
+    import luadsl as L
+    import formspaths
+    lit = lambda *a: [L.arg_lit(x if isinstance(x, bytes) else str(x).encode()) for x in a]
+    ways = [
+        ('direct', lambda s, c: [s.cmd(c, B('SET', 'a', 2)), s.cmd(c, B('RPUSH', 'l', 'x'))]),
+        ('blocking-pop-answered-at-once', lambda s, c: [s.cmd(c, B('BLPOP', 'l', 0)), s.cmd(c, B('BRPOP', 'nolist', 'l', 0))]),
+        ('script', lambda s, c: formspaths.eval_prog(s, c, [L.call(lit('SET', 'by-script', 1)), L.call(lit('LPOP', 'l'), ret=1)], [], [])),
+        ('script-ending-in-error', lambda s, c: formspaths.eval_prog(s, c, [L.call(lit('SET', 'by-script', 1)), L.call(lit('RPUSH', 'l', 'y')),
+                                                                          L.call(lit('INCR', 'str'), ret=1)], [], [])),
+        ('script-by-digest-pcall-error', lambda s, c: formspaths.eval_prog(s, c, [L.call(lit('HSET', 'h', 'g', 2)), L.call(lit('LPUSH', 'str', 'y'), pcall=True),
+                                                                               L.call(lit('SREM', 'S', 'm1'), ret=1)], [], [], bysha=True)),
+        ('exec', lambda s, c: [s.cmd(c, B('MULTI')), s.cmd(c, B('APPEND', 'str', '!')), s.cmd(c, B('LPOP', 'l')), s.cmd(c, B('EXEC'))]),
+        ('deleted-by-a-past-deadline', lambda s, c: [s.cmd(c, B('PEXPIRE', 'a', 0)), s.cmd(c, B('EXPIRE', 'h', -1))]),
+        ('popped-to-nothing', lambda s, c: [s.cmd(c, B('LPOP', 'l')), s.cmd(c, B('RPOP', 'l')), s.cmd(c, B('LPOP', 'l')), s.cmd(c, B('SPOP', 'S', 5)), s.cmd(c, B('ZPOPMIN', 'z', 5))]),
+        ('flushdb-and-rename', lambda s, c: [s.cmd(c, B('SELECT', 1)), s.cmd(c, B('FLUSHDB')), s.cmd(c, B('SELECT', 0)), s.cmd(c, B('RENAME', 'a', 'b'))]),
+        ('stream', lambda s, c: [s.cmd(c, B('XDEL', 'x', '2-0')), s.cmd(c, B('XADD', 'x', '3-0', 'f', 'v'))]),
+        ('ttl-only', lambda s, c: [s.cmd(c, B('EXPIRE', 'a', 1000)), s.cmd(c, B('PERSIST', 't'))]),
+        ('nothing', lambda s, c: []),
+    ]
+    n = 0
+    for name, change in ways:
+        srv = ctx.new_server(name='resave')
+        tr = ctx.new_trace('resave-' + name)
+        s = Session(srv, tr, reply_timeout=20.0)
+        try:
+            c = s.open()
+            for a in (B('SET', 'str', 'text'), B('SET', 'a', 1), B('RPUSH', 'l', 1, 2, 3), B('SADD', 'S', 'm1', 'm2'), B('HSET', 'h', 'f', 1), B('ZADD', 'z', 1, 'p', 2, 'q'),
+                      B('XADD', 'x', '1-0', 'f', 'v'), B('XADD', 'x', '2-0', 'f', 'w'), B('SET', 't', 'v', 'EX', 1000), B('SELECT', 1), B('SET', 'other', 'db1'), B('SELECT', 0)):
+                s.cmd(c, a)
+            s.cmd(c, [b'SAVE'])
+            if name == 'direct':        # a pop made on behalf of a waiter, too
+                w = s.open()
+            change(s, c)
+            s.cmd(c, [b'SAVE'])
+            s.close_all()
+            srv.kill()
+            t0 = tr.now()
+            srv.start()
+            tr.emit({'k': 'restart', 't0': t0, 't1': tr.now() + 1})
+            c = s.open()
+            for d in (0, 1):
+                s.cmd(c, B('SELECT', d))
+                workloads.dump_db(s, c)
+            s.close(c)
+        except ServerDied:
+            tr.emit({'k': 'crash', 'status': srv.exit_status()})
+        ctx.validate(tr, label='resave-' + name)
+        srv.kill()
+        n += 1
+    return n
+
+
 def run(ctx):
+    nr = resave_histories(ctx)
+    ctx.extra_cov['resave_histories'] = nr
     n = 2 if ctx.quick else 12
     for i in range(n):
         # the 16383/16384/65536+ sizes cost minutes of TLC time per round trip: thorough tier only
         round_trip(ctx, i, big=(not ctx.quick) and i < 3)
-    ctx.extra_cov['distinct_cases'] = n
+    ctx.extra_cov['distinct_cases'] = n + nr
     ctx.extra_cov['round_trips'] = n
 
 
